@@ -36,9 +36,112 @@ type Baseline struct {
 
 // BaseFunc records the identity-free content of a function.
 type BaseFunc struct {
-	Hash   string   `json:"hash"`
-	Params []string `json:"params"`
+	Hash     string   `json:"hash"`
+	BodyHash string   `json:"body"`
+	Alpha    string   `json:"alpha"` // body hash with local variables and parameters numbered (renaming-insensitive)
+	Params   []string `json:"params"`
 }
+
+// alphaHash hashes the function's body with every identifier that denotes a local variable, parameter, named
+// result or receiver replaced by the ordinal of its first occurrence: two bodies that differ only in the names of
+// locals have the same hash.
+func alphaHash(info *types.Info, pkg *types.Package, d *ast.FuncDecl) string {
+	if d.Body == nil || info == nil {
+		return ""
+	}
+	var b bytes.Buffer
+	num := map[types.Object]int{}
+	local := func(obj types.Object) bool {
+		v, ok := obj.(*types.Var)
+		if !ok || v.IsField() {
+			return false
+		}
+		return pkg == nil || obj.Parent() != pkg.Scope()
+	}
+	ast.Inspect(d.Body, func(n ast.Node) bool {
+		if n == nil {
+			b.WriteString(")")
+			return false
+		}
+		fmt.Fprintf(&b, "(%T", n)
+		switch x := n.(type) {
+		case *ast.Ident:
+			obj := info.Defs[x]
+			if obj == nil {
+				obj = info.Uses[x]
+			}
+			if obj != nil && local(obj) {
+				k, ok := num[obj]
+				if !ok {
+					k = len(num)
+					num[obj] = k
+				}
+				fmt.Fprintf(&b, " v%d", k)
+			} else if x.Name == d.Name.Name {
+				b.WriteString(" _SELF_")
+			} else {
+				b.WriteString(" " + x.Name)
+			}
+		case *ast.BasicLit:
+			b.WriteString(" " + x.Value)
+		case *ast.BinaryExpr:
+			b.WriteString(" " + x.Op.String())
+		case *ast.UnaryExpr:
+			b.WriteString(" " + x.Op.String())
+		case *ast.AssignStmt:
+			b.WriteString(" " + x.Tok.String())
+		case *ast.IncDecStmt:
+			b.WriteString(" " + x.Tok.String())
+		case *ast.BranchStmt:
+			b.WriteString(" " + x.Tok.String())
+		case *ast.RangeStmt:
+			b.WriteString(" " + x.Tok.String())
+		}
+		return true
+	})
+	h := sha1.Sum(b.Bytes())
+	return hex.EncodeToString(h[:])
+}
+
+func bodyHash(fset *token.FileSet, d *ast.FuncDecl) string {
+	var b bytes.Buffer
+	if d.Body != nil {
+		_ = format.Node(&b, fset, d.Body)
+	}
+	re := regexp.MustCompile(`\b` + regexp.QuoteMeta(d.Name.Name) + `\b`)
+	h := sha1.Sum([]byte(re.ReplaceAllString(b.String(), "_SELF_")))
+	return hex.EncodeToString(h[:])
+}
+
+// GoneBodies lists, per package, the body hashes of baseline functions that the tree no longer declares under
+// their baseline key: a new function with such a body is that function with another signature (a method made a
+// plain function, a dropped or reordered parameter, another receiver) and is left as it is.
+func GoneBodies(base *Baseline, present map[string]bool) map[string]map[string]bool {
+	out := map[string]map[string]bool{}
+	for k, f := range base.Funcs {
+		if present[k] || f.BodyHash == "" {
+			continue
+		}
+		// key = pkg.Recv.Name
+		i := strings.LastIndex(k, ".")
+		j := strings.LastIndex(k[:i], ".")
+		pkg := k[:j]
+		if out[pkg] == nil {
+			out[pkg] = map[string]bool{}
+		}
+		out[pkg][f.BodyHash] = true
+		if f.Alpha != "" {
+			out[pkg]["alpha:"+f.Alpha] = true
+		}
+	}
+	return out
+}
+
+// AlphaHashOf exposes alphaHash.
+func AlphaHashOf(info *types.Info, pkg *types.Package, d *ast.FuncDecl) string { return alphaHash(info, pkg, d) }
+
+// BodyHashOf is bodyHash for other files of the package.
+func BodyHashOf(fset *token.FileSet, d *ast.FuncDecl) string { return bodyHash(fset, d) }
 
 func funcHash(fset *token.FileSet, d *ast.FuncDecl) string {
 	var b bytes.Buffer
@@ -82,7 +185,7 @@ func BuildBaseline(pkgs []*packages.Package) *Baseline {
 		for _, f := range pk.Syntax {
 			for _, d := range f.Decls {
 				if fd, ok := d.(*ast.FuncDecl); ok {
-					b.Funcs[FuncDeclKey(pk.PkgPath, fd)] = BaseFunc{Hash: funcHash(pk.Fset, fd), Params: paramNames(fd)}
+					b.Funcs[FuncDeclKey(pk.PkgPath, fd)] = BaseFunc{Hash: funcHash(pk.Fset, fd), BodyHash: bodyHash(pk.Fset, fd), Alpha: alphaHash(pk.TypesInfo, pk.Types, fd), Params: paramNames(fd)}
 				}
 			}
 		}
@@ -193,13 +296,38 @@ func RenameBack(dir string, overlay map[string][]byte, goarch string, base *Base
 			}
 			h := funcHash(pk.Fset, fd)
 			recvKey := k[:strings.LastIndex(k, ".")]
+			matched := false
 			for _, g := range gone {
 				if usedGone[g] || g[:strings.LastIndex(g, ".")] != recvKey || base.Funcs[g].Hash != h {
 					continue
 				}
 				usedGone[g] = true
+				matched = true
 				if obj := pk.TypesInfo.Defs[fd.Name]; obj != nil {
 					rens = append(rens, ren{obj, g[strings.LastIndex(g, ".")+1:], fmt.Sprintf("function %s (was %s)", k, g)})
+				}
+				break
+			}
+			if matched {
+				continue
+			}
+			// same body under another signature (receiver dropped or added, parameters changed) and another name
+			bh := bodyHash(pk.Fset, fd)
+			ah := alphaHash(pk.TypesInfo, pk.Types, fd)
+			for _, g := range gone {
+				if usedGone[g] || (base.Funcs[g].BodyHash != bh && (ah == "" || base.Funcs[g].Alpha != ah)) {
+					continue
+				}
+				usedGone[g] = true
+				oldName := g[strings.LastIndex(g, ".")+1:]
+				if oldName == fd.Name.Name {
+					break
+				}
+				if fd.Recv == nil && pk.Types != nil && pk.Types.Scope().Lookup(oldName) != nil {
+					break
+				}
+				if obj := pk.TypesInfo.Defs[fd.Name]; obj != nil {
+					rens = append(rens, ren{obj, oldName, fmt.Sprintf("function %s (was %s, signature changed)", k, g)})
 				}
 				break
 			}
